@@ -7,6 +7,7 @@
 use std::sync::Arc;
 
 use nerdondon_hopscotch::concurrent_skiplist::{ConcurrentSkipList, SkipNode};
+use parking_lot::RwLock;
 
 use crate::errors::{RainDBError, RainDBResult};
 use crate::key::InternalKey;
@@ -44,6 +45,17 @@ pub trait MemTable: Send + Sync {
 pub(crate) struct SkipListMemTable {
     /// The actual skip list backing the memtable.
     store: Arc<ConcurrentSkipList<InternalKey, Vec<u8>>>,
+
+    /**
+    Guards the links of the skip list.
+
+    The skip list links a new node from its top level down, so a search that runs while a node is
+    being inserted can step onto the new node before its lower levels point anywhere and conclude
+    that the list ends there. Searches therefore take this lock shared, for the duration of one
+    search, and an insertion takes it exclusively. Nodes are never removed, so references to keys
+    and values stay valid after the lock is released.
+    */
+    links_lock: Arc<RwLock<()>>,
 }
 
 /// Public methods
@@ -52,6 +64,7 @@ impl SkipListMemTable {
     pub fn new() -> Self {
         Self {
             store: Arc::new(ConcurrentSkipList::new(None)),
+            links_lock: Arc::new(RwLock::new(())),
         }
     }
 }
@@ -66,6 +79,7 @@ impl MemTable for SkipListMemTable {
         SAFETY:
         RainDB enforces that there is only a single writer adding to the memtable at a time.
         */
+        let _links_guard = self.links_lock.write();
         unsafe { self.store.insert_with_size(key, value) }
     }
 
@@ -82,7 +96,10 @@ impl MemTable for SkipListMemTable {
             let (current_key, _current_val) = iter.current().unwrap();
             if current_key.get_user_key() == key.get_user_key() {
                 match current_key.get_operation() {
-                    crate::Operation::Put => return Ok(self.store.get(current_key)),
+                    crate::Operation::Put => {
+                        let _links_guard = self.links_lock.read();
+                        return Ok(self.store.get(current_key));
+                    }
                     crate::Operation::Delete => return Ok(None),
                 }
             }
@@ -92,8 +109,10 @@ impl MemTable for SkipListMemTable {
     }
 
     fn iter(&self) -> Box<dyn RainDbIterator<Key = InternalKey, Error = RainDBError>> {
+        let _links_guard = self.links_lock.read();
         Box::new(SkipListMemTableIter {
             store: Arc::clone(&self.store),
+            links_lock: Arc::clone(&self.links_lock),
             current_entry: self.store.first_node().map(|node| {
                 let (key, value) = node.get_entry();
                 (key.clone(), value.clone())
@@ -124,6 +143,9 @@ struct SkipListMemTableIter {
     /// A reference to the skip list backing the memtable.
     store: Arc<ConcurrentSkipList<InternalKey, Vec<u8>>>,
 
+    /// The lock guarding the links of the skip list. See [`SkipListMemTable::links_lock`].
+    links_lock: Arc<RwLock<()>>,
+
     /// The key-value pair that was found last.
     current_entry: Option<(InternalKey, Vec<u8>)>,
 }
@@ -146,6 +168,7 @@ impl RainDbIterator for SkipListMemTableIter {
     }
 
     fn seek(&mut self, target: &Self::Key) -> Result<(), Self::Error> {
+        let _links_guard = self.links_lock.read();
         self.current_entry = self
             .store
             .find_greater_or_equal_node(target)
@@ -155,6 +178,7 @@ impl RainDbIterator for SkipListMemTableIter {
     }
 
     fn seek_to_first(&mut self) -> Result<(), Self::Error> {
+        let _links_guard = self.links_lock.read();
         self.current_entry = self
             .store
             .first_node()
@@ -164,6 +188,7 @@ impl RainDbIterator for SkipListMemTableIter {
     }
 
     fn seek_to_last(&mut self) -> Result<(), Self::Error> {
+        let _links_guard = self.links_lock.read();
         self.current_entry = self
             .store
             .last_node()
@@ -177,12 +202,14 @@ impl RainDbIterator for SkipListMemTableIter {
             return None;
         }
 
+        let links_guard = self.links_lock.read();
         self.current_entry = self.current_entry.take().and_then(|(key, _value)| {
             self.store
                 .find_greater_or_equal_node(&key)
                 .and_then(|node| node.next())
                 .map(SkipListMemTableIter::owned_entry_from_node)
         });
+        drop(links_guard);
         self.current()
     }
 
@@ -201,10 +228,12 @@ impl RainDbIterator for SkipListMemTableIter {
         }
 
         let (curr_key, _) = self.current_entry.take().unwrap();
+        let links_guard = self.links_lock.read();
         self.current_entry = self
             .store
             .find_less_than_node(&curr_key)
             .map(SkipListMemTableIter::owned_entry_from_node);
+        drop(links_guard);
         self.current()
     }
 
